@@ -180,6 +180,32 @@ def err_variant_of(body, op):
     return None
 
 
+def reraised_call(body, op):
+    """The call whose `Err` payload the operand is (moved out of `(r as Err).0`, possibly through From::from), else None."""
+    from .facts import proj_names
+    for _ in range(4):
+        if not is_place(op):
+            return None
+        l = op_local(op)
+        cur, d = resolve_copy(body, l)
+        if d is None:
+            return None
+        if d.kind == 'call' and d.call.is_(r'^std::convert::(From::from|Into::into)$') and d.call.args:
+            op = d.call.args[0]
+            continue
+        if d.kind != 'assign' or d.rv['k'] != 'use' or not is_place(d.rv['a']):
+            return None
+        pl = op_place(d.rv['a'])
+        names = proj_names(pl)
+        if names[:1] == ('@Err',) and len(names) == 2:
+            _, d2 = resolve_copy(body, pl['l'])
+            if d2 is not None and d2.kind == 'call':
+                return d2.call
+            return None
+        return None
+    return None
+
+
 def error_exits(body):
     """Explicit `Err(..)` returns, `?` propagations and tail-returned Results."""
     out = []
@@ -199,6 +225,13 @@ def error_exits(body):
                     e.variant = err_variant_of(body, rv['ops'][0])
                     e.desc = 'Err(%s)' % (e.variant or '..')
                     e.ln = st['ln']
+                    # `match r { Err(e) => Err(e), .. }`: the error of the call that produced r, re-raised (what `?` does)
+                    src = reraised_call(body, rv['ops'][0])
+                    if src is not None:
+                        e.kind = 'try'
+                        e.src_call = src
+                        e.src_local = src.dest['l']
+                        e.desc = '%s? (re-raised)' % src.full
                     out.append(e)
     for ts in try_sites(body):
         if ts.residual is None or ts.branch.b not in live:
@@ -259,12 +292,62 @@ class Fallibility:
             bodies = [b for b in bodies if b is not None]
             if bodies and all(self.fn_infallible(b.key) for b in bodies):
                 return True
+        # Option<Result<..>>::transpose forwards the error of the Result inside the Option it is given
+        if call.is_(r'^std::option::Option::<std::result::Result<T, E>>::transpose$') and call.args and is_place(call.args[0]):
+            return self.value_infallible(call.body, op_local(call.args[0]))
         # std combinators carrying closures: infallible iff they only forward
         if call.is_(*T.RESULT_FORWARDERS):
             srcs = self.forwarded_sources(call)
             if srcs is not None:
                 return all(srcs)
         return False
+
+    def value_infallible(self, body, l, depth=0, seen=None):
+        """No definition of local l (a Result, or an Option holding one) can be / contain an `Err` that stems from a
+        fallible source."""
+        seen = seen if seen is not None else set()
+        if l in seen or depth > 12:
+            return True
+        seen.add(l)
+        ds = body.defs().get(l, [])
+        if not ds:
+            return False
+        tsites = None
+        for d in ds:
+            if d.kind == 'mutarg' or (d.lhs is not None and d.lhs['p']):
+                return False
+            if d.kind == 'assign':
+                rv = d.rv
+                if rv['k'] == 'agg' and rv.get('adt') in ('std::result::Result', 'std::option::Option'):
+                    if rv['variant'] in ('Ok', 'None'):
+                        continue
+                    if rv['variant'] == 'Some':
+                        o = rv['ops'][0]
+                        if is_place(o) and not op_place(o)['p'] and ('Result<' in body.local_ty(op_local(o))):
+                            if not self.value_infallible(body, op_local(o), depth + 1, seen):
+                                return False
+                        continue
+                    src = reraised_call(body, rv['ops'][0])
+                    if src is None or not self.call_infallible(src):
+                        return False
+                    continue
+                if rv['k'] == 'use' and is_place(rv['a']) and not op_place(rv['a'])['p']:
+                    if not self.value_infallible(body, op_local(rv['a']), depth + 1, seen):
+                        return False
+                    continue
+                return False
+            if d.kind == 'call':
+                c = d.call
+                if c.is_(r'^std::ops::FromResidual::from_residual$'):
+                    if tsites is None:
+                        tsites = try_sites(body)
+                    ts = [x for x in tsites if x.residual is c]
+                    if not ts or ts[0].src_def is None or ts[0].src_def.kind != 'call' or not self.call_infallible(ts[0].src_def.call):
+                        return False
+                    continue
+                if not self.call_infallible(c):
+                    return False
+        return True
 
     def forwarded_sources(self, call):
         """For `x.map_err(f)`, `x.map(f)`: the fallibility of x."""
@@ -1141,4 +1224,38 @@ def family_ext(F, key):
                 if x.key not in have:
                     have.add(x.key)
                     out.append(x)
+    return out
+
+
+def present_edges(body, call):
+    """CFG edges on which the Option / Result returned by `call` is known to be Some / Ok: the Some (Ok) case of a switch on
+    its discriminant, and the continue edge of a `?` applied to it."""
+    out = []
+    dl = call.dest['l']
+    is_res = 'Result<' in body.local_ty(dl)
+
+    def is_it(l):
+        if l == dl:
+            return True
+        cur, d = resolve_copy(body, l)
+        return cur == dl or (d is not None and d.kind == 'call' and d.call is call)
+    for b in sorted(body.live_blocks()):
+        t = body.term(b)
+        if t['k'] != 'switch' or not is_place(t['d']):
+            continue
+        _, d = resolve_copy(body, op_local(t['d']))
+        if d is None or d.kind != 'assign' or d.rv['k'] != 'discr' or d.rv['pl']['p']:
+            continue
+        if not is_it(d.rv['pl']['l']):
+            continue
+        want = 0 if is_res else 1
+        cases = {v: tgt for v, tgt in t['cases']}
+        if want in cases:
+            out.append((b, cases[want]))
+        elif len(cases) == 1 and t['else'] is not None:
+            out.append((b, t['else']))
+    for ts in try_sites(body):
+        if ts.src_local is not None and ts.cont is not None and ts.sw_block is not None:
+            if is_it(ts.src_local) or (ts.src_def is not None and ts.src_def.kind == 'call' and ts.src_def.call is call):
+                out.append((ts.sw_block, ts.cont))
     return out
